@@ -67,7 +67,7 @@ def handle (j : Json) : Json :=
       (if cCb then ["CallbackCycle"] else [])
     let abnormal := dedupStr (
       (if loadPanics || cKind || cNil || cDrill then ["load"] else []) ++
-      (if cNullM then ["load", "validate", "post"] else []) ++
+      (if cNullM then ["validate", "post"] else []) ++
       (if cNullW || cEnc || cUnres then ["post"] else []) ++
       (if cEmpty then ["crash:IsEmpty"] else []) ++ (if cComp then ["crash:visit"] else []) ++
       (if cCb then ["crash:deref", "crash:validate"] else []))
